@@ -602,7 +602,7 @@ pub fn run(ctx: &Ctx) -> Report {
         vec![s.clone(), s]
     } else {
         let mut rng = ctx.rng("c16");
-        let n = ctx.pick(288, 2400) / ctx.nshards;
+        let n = ctx.pick(288, 4800) / ctx.nshards;
         let mut v: Vec<Scen> = (0..n).map(|_| scen_from_seed(rng.u64())).collect();
         // directed: put_record_to_peers with a peer that has only an undialable address
         let mut d = scen_from_seed(rng.u64());
